@@ -292,6 +292,16 @@ func enumerate(rp *explore.Report, tier string, prefix string, ts []template, ex
 					rp.Nontrivial++
 				}
 				want, werr := exec(pr, nil)
+				if byVar >= mDefaultOver && strings.Contains(ann, " = ") {
+					// the caller's variables map has been through the parser before, with an operation that declares
+					// the opposite defaults: nothing of that may stick to the map
+					if vars == nil {
+						vars = map[string]interface{}{}
+					}
+					head := strings.SplitN(ann, "{", 2)[0]
+					flipped := strings.NewReplacer("= true", "= false", "= false", "= true").Replace(head) + "{ count }"
+					graphql.Parse(flipped, vars)
+				}
 				got, gerr := exec(ann, vars)
 				if rp.Cases%997 == 1 {
 					rp.AddSample(map[string]interface{}{"via": prefix, "annotated": ann, "vars": vars, "pruned": pr})
